@@ -14,6 +14,7 @@
 #include <string.h>
 #include <sys/mman.h>
 #include <sys/wait.h>
+#include <ucontext.h>
 #include <unistd.h>
 
 #include <reproc/drain.h>
@@ -549,7 +550,12 @@ static long do_call(jv *c, jv **extra)
     K->nfault = 0;
     /* find the child created for this handle (the last one forked during this call) */
     int newpid = 0;
-    for (int i = log_mark; i < K->nlog; i++) if (K->log[i].kind == LK_FORK && K->log[i].side == 0) newpid = K->log[i].a;
+    /* the process forked for THIS handle during this call (the fork wrapper tags it with the calling thread's handle) */
+    for (int i = 0; i < K->nlog; i++)
+      if (K->log[i].kind == LK_FORK && K->log[i].side == 0 && K->log[i].a > Hpid[h]) {
+        int pi = sk_proc_by_pid(K->log[i].a);
+        if (pi > 0 && K->proc[pi].handle == h) newpid = K->log[i].a;
+      }
     (void) nproc_before;
     if (r > 0 && newpid) {
       Hpid[h] = newpid;
@@ -763,6 +769,106 @@ static void setup(jv *cfg)
   memset(woff, 0, sizeof woff); memset(coff, 0, sizeof coff); memset(roff, 0, sizeof roff);
 }
 
+/* ---------- C20: two (or more) API call sequences interleaved at system-call granularity ----------
+ * Each "thread" is a coroutine running its calls; control changes hands only at the entry of a
+ * kernel-relevant wrapped call (simk's yield hook), following the schedule of the script (a sequence of
+ * thread numbers, one per yield point). When the schedule is exhausted the threads run to completion in turn. */
+#define MAXT 3
+#define COSTACK (512 * 1024)
+static struct co { ucontext_t ctx; char *stack; jv *calls; jv *rets; int done; int cur_handle; int yields; jv *kinds; } co[MAXT];
+static ucontext_t sched_ctx;
+static int co_cur = -1, co_n;
+static jv *co_sched; static int co_pos;
+static int co_total_yields;
+
+static void co_body(int t)
+{
+  struct co *c = &co[t];
+  for (int i = 0; i < c->calls->n; i++) {
+    jv *extra;
+    cur_call = c->calls->a[i];
+    long r = do_call(c->calls->a[i], &extra);
+    j_push(c->rets, j_mkint(r));
+  }
+  c->done = 1;
+  swapcontext(&c->ctx, &sched_ctx);
+}
+
+static void co_yield(int kind)
+{
+  (void) kind;
+  if (co_cur < 0) return;
+  struct co *c = &co[co_cur];
+  c->yields++; co_total_yields++;
+  j_push(c->kinds, j_mkint(kind));
+  c->cur_handle = K->cur_handle;
+  swapcontext(&c->ctx, &sched_ctx);
+  K->cur_handle = c->cur_handle;   /* per-thread context of the driver */
+  K->in_api = 1;
+}
+
+static jv *run_conc(jv *st)
+{
+  jv *th = j_get(st, "threads");
+  co_n = th->n < MAXT ? th->n : MAXT;
+  co_sched = j_get(st, "sched"); co_pos = 0; co_total_yields = 0;
+  for (int t = 0; t < co_n; t++) {
+    struct co *c = &co[t];
+    memset(c, 0, sizeof *c);
+    c->stack = malloc(COSTACK); c->calls = th->a[t]; c->rets = j_mkarr(); c->kinds = j_mkarr();
+    getcontext(&c->ctx);
+    c->ctx.uc_stack.ss_sp = c->stack; c->ctx.uc_stack.ss_size = COSTACK; c->ctx.uc_link = &sched_ctx;
+    makecontext(&c->ctx, (void (*)(void)) co_body, 1, t);
+  }
+  sk_yield_hook = co_yield;
+  K->in_api = 0;
+  int started[MAXT] = { 0 };
+  for (;;) {
+    int t = -1;
+    while (co_sched && co_pos < co_sched->n) {       /* next schedule entry naming a thread that can still run */
+      int want = (int) co_sched->a[co_pos++]->i - 1;
+      if (want >= 0 && want < co_n && !co[want].done) { t = want; break; }
+    }
+    if (t < 0) for (int q = 0; q < co_n; q++) if (!co[q].done) { t = q; break; }
+    if (t < 0) break;
+    co_cur = t;
+    if (!started[t]) K->in_api = 0;    /* a fresh thread starts in driver code */
+    started[t] = 1;
+    swapcontext(&sched_ctx, &co[t].ctx);
+    co_cur = -1;
+  }
+  (void) started;
+  sk_yield_hook = NULL;
+  K->in_api = 0;
+  jv *x = j_mkobj(), *rs = j_mkarr(), *ys = j_mkarr();
+  jv *ks = j_mkarr();
+  for (int t = 0; t < co_n; t++) { j_push(rs, co[t].rets); j_push(ys, j_mkint(co[t].yields)); j_push(ks, co[t].kinds); free(co[t].stack); }
+  j_put(x, "rets", rs); j_put(x, "yields", ys); j_put(x, "ykinds", ks);
+  return x;
+}
+
+/* wiring of every started child, and who still holds the write end of each child's stdin pipe */
+static jv *conc_obs(void)
+{
+  jv *a = j_mkarr();
+  for (int h = 1; h < MAXH; h++) {
+    int p = child_of(h);
+    if (p < 0) continue;
+    jv *call = j_mkobj(); j_put(call, "h", j_mkint(h));
+    jv *e = j_mkobj();
+    j_put(e, "h", j_mkint(h));
+    j_put(e, "cw", obs_key("cw", call, 1, NULL));
+    j_put(e, "cx", obs_key("cx", call, 1, NULL));
+    /* number of open file descriptions that can write into this child's stdin pipe besides the parent's own end */
+    struct sk_proc *c = &K->proc[p];
+    int other = -1;
+    if (c->fd[0].ofd >= 0 && K->obj[K->ofd[c->fd[0].ofd].obj].kind == OK_PIPE) other = K->obj[K->ofd[c->fd[0].ofd].obj].writers;
+    j_put(e, "inw", j_mkint(other));
+    j_push(a, e);
+  }
+  return a;
+}
+
 /* ---------- main loop over one script ---------- */
 static void run_script(jv *s)
 {
@@ -820,6 +926,22 @@ static void run_script(jv *s)
           cur_keys = badkeys;
           diverge("mismatch", badkeys->a[0]->s, firstexp, o);
         }
+      }
+      continue;
+    }
+    if (!strcmp(e, "conc")) {
+      cur_call = st; pos++;
+      jv *x = run_conc(st);
+      j_put(x, "kids", conc_obs());
+      if (trace) { jv *rec = j_mkobj(); j_put(rec, "e", j_mkstr("obs")); j_put(rec, "call", st); j_put(rec, "o", x); j_push(trace, rec); }
+      jv *exp = j_get(st, "exp");
+      if (exp) {
+        jv *badkeys = NULL;
+        for (int i = 0; i < exp->n; i++) {
+          jv *o = j_get(x, exp->k[i]);
+          if (!o || !j_eq(exp->a[i], o)) { if (!badkeys) badkeys = j_mkarr(); j_push(badkeys, j_mkstr(exp->k[i])); }
+        }
+        if (badkeys) { cur_keys = badkeys; diverge("mismatch", badkeys->a[0]->s, exp, x); }
       }
       continue;
     }
